@@ -230,6 +230,19 @@ def _key_complete(ctx, fi, field, if_node, ctor):
            nontrivial_key=("cache-key", fi.qualname, field))
 
 
+def r_cache_key(ctx: Ctx):
+    """history independence of the interpolated accessors: what a query returns depends on its own arguments, not on the arguments
+    of the query that filled the cache (decided by interpretation - shared with C03 R-cache)"""
+    from . import C03
+    from ..spec_iso import all_states, mkstate
+    ctx.rule("R-cache-key: with a cache left by a query for another branch / kind / fill value the accessor rebuilds the interpolator; "
+             "with a cache for the same arguments it reuses it; afterwards the cache describes the current arguments")
+    E = C03.Engine(ctx.root, False)
+    pres, load_, mat, tus = all_states(E.t, False)
+    n = C03.cache_discipline(ctx, E, mkstate(pres[0], load_[0], mat[0], tus[0]), prop="C04")
+    ctx.floor("cache-discipline cases", n, 30)
+
+
 def r_cache_use(ctx: Ctx, model):
     _KEY_SEEN.clear()
     ctx.rule("R-cache-use: l_interpolator / p_interpolator are read only inside the canonical rebuild test "
@@ -258,13 +271,12 @@ def r_cache_use(ctx: Ctx, model):
                             if isinstance(st, ast.Assign) and any(isinstance(t, ast.Attribute) and t.attr == n.attr for t in st.targets) \
                                     and isinstance(st.value, ast.Call) and ast.unparse(st.value.func).endswith("IsothermInterpolator"):
                                 ok = True
-                                _key_complete(ctx, fi, n.attr, par, st.value)
                 ctx.ob(ok, Finding("C04.R-cache-use", fi.where, f"{fi.short}|reads:{n.attr}",
                                    f"line {n.lineno}: {fi.short} reads the cache field {n.attr} outside the rebuild test / "
                                    f"interpolation call (`{ast.unparse(parents.get(n, n))[:90]}`): the outcome depends on which "
                                    "queries ran before"),
                        nontrivial_key=("cache-use", fi.qualname, n.lineno))
-    ctx.floor("reads of interpolator cache fields", reads, 8)
+    ctx.floor("reads of interpolator cache fields", reads, 2)
 
 
 # ---- R-state -----------------------------------------------------------------------------------------
@@ -368,6 +380,7 @@ def run(ctx: Ctx):
     eps = r_pure(ctx, model, eff)
     r_module(ctx, model, eff, eps)
     r_cache_use(ctx, model)
+    r_cache_key(ctx)
     r_state(ctx, model)
 
 
